@@ -28,7 +28,7 @@ func init() {
 			"DST lengths on both sides of the 255-byte oversize rule (1,2,15-17,...,253-258,300,511,512,1000), nil vs empty message, nil and empty DST (must panic), DST/message as sub-slices with spare capacity, the RFC suite DSTs, PRNG (msg,DST) pairs. " +
 			"Oracle: an independent transcription of RFC 9380 (expand_message_xmd 5.3.1/5.3.3, hash_to_field, the non-optimised SSWU of 6.6.2, the E.1 rational map, affine addition) in math/big + crypto/sha256, self-validated on the RFC vectors; " +
 			"the result must encode identically, be a valid curve point, and be identical on a second call with the same content in a different slice layout. " +
-			"Also: DSTs of 65535..196863 bytes (lengths that wrap in 16 bits); buffer-reuse sequences (successive messages/DSTs written into the same two buffers, same and different lengths, short and oversize); concurrent batches (8 goroutines hashing simultaneously on buffers they own); pipeline cases: chosen expander outputs (48/96 bytes: fold-resonant high limbs, structured halves, PRNG) pushed through the library's own hash_to_field reduction, SSWU, isogeny and final addition, because hashing cannot steer those bytes. Branch outcomes (gx1 square or not for each u, sign fix-up direction) are read from the oracle and counted. " +
+			"Also: DSTs of 65535..196863 bytes (lengths that wrap in 16 bits); buffer-reuse sequences (successive messages/DSTs written into the same two buffers, same and different lengths, short and oversize); concurrent batches (8 goroutines hashing simultaneously on buffers they own); pipeline cases: chosen expander outputs (48/96 bytes: fold-resonant high limbs, structured halves, PRNG) pushed through the library's own hash_to_field reduction, SSWU, isogeny and final addition, because hashing cannot steer those bytes. Chosen u: every steered map input of C11 (intermediates, inverted values and outputs of SSWU placed on structured / hard / shared-point values, steer.go) enters the pipeline as expander output 0^16||u. Message lengths 0..520 against 49/16/255/256-byte tags. Call sequences on fresh buffers across HashToGroup/EncodeToGroup/HashToScalar: pairs colliding under tag||len||msg, msg||tag and tag||msg framings, one tag under both output lengths in every order, 1-3 byte tags first, repeats, last-byte and prefix variants. Branch outcomes (gx1 square or not for each u, sign fix-up direction) are read from the oracle and counted. " +
 			"non-trivial = every non-panicking case; distinct by (fn, msg, dst).",
 		NewCase:  func() any { return &h2cCase{} },
 		Generate: c08Generate,
